@@ -68,11 +68,8 @@ def canonicalize_license_expression(
     # whitespace.
     license_expression = raw_license_expression.replace("(", " ( ").replace(")", " ) ")
     licenseref_prefix = "LicenseRef-"
-    license_refs = {
-        ref.lower(): "LicenseRef-" + ref[len(licenseref_prefix) :]
-        for ref in license_expression.split()
-        if ref.lower().startswith(licenseref_prefix.lower())
-    }
+    # Keep the tokens as written: the suffix of a LicenseRef is case-sensitive.
+    original_tokens = license_expression.split()
 
     # Normalize to lower case so we can look up licenses/exceptions
     # and so boolean operators are Python-compatible.
@@ -117,7 +114,7 @@ def canonicalize_license_expression(
     normalized_tokens = []
     # ``WITH`` may only directly follow a license identifier.
     after_license = False
-    for token in tokens:
+    for original_token, token in zip(original_tokens, tokens):
         if normalized_tokens and normalized_tokens[-1] == "WITH":
             if token not in EXCEPTIONS:
                 message = f"Unknown license exception: {token!r}"
@@ -141,10 +138,13 @@ def canonicalize_license_expression(
                 suffix = ""
 
             if final_token.startswith("licenseref-"):
-                if not license_ref_allowed.match(final_token):
+                ref = original_token[: len(original_token) - len(suffix)]
+                if not license_ref_allowed.match(ref):
                     message = f"Invalid licenseref: {final_token!r}"
                     raise InvalidLicenseExpression(message)
-                normalized_tokens.append(license_refs[final_token] + suffix)
+                normalized_tokens.append(
+                    licenseref_prefix + ref[len(licenseref_prefix) :] + suffix
+                )
             else:
                 if final_token not in LICENSES:
                     message = f"Unknown license: {final_token!r}"
